@@ -3,11 +3,11 @@
 # The evidence file of the unchanged tree is preserved.
 set -u
 P=$1; PATCH=$2; TIER=${3:-quick}
-cd /verif
-git -C /repo diff --quiet || { echo "/repo not clean"; exit 2; }
-git -C /repo apply "$PATCH" || { echo "patch does not apply"; exit 2; }
+cd "$(dirname "$0")/.."; export VERIF_REPO="${VERIF_REPO:-/repo}"
+git -C "$VERIF_REPO" diff --quiet || { echo "/repo not clean"; exit 2; }
+git -C "$VERIF_REPO" apply "$PATCH" || { echo "patch does not apply"; exit 2; }
 cp evidence/$P.json /var/tmp/evidence_$P.bak 2>/dev/null
 ./check $P --tier $TIER 2>&1 | grep -E "VIOLATION|KNOWN|OK:|FAILED:|broken:|^  [a-zA-Z]" | grep -v "^  File" | head -12
-git -C /repo checkout -- .
+git -C "$VERIF_REPO" checkout -- .
 cp /var/tmp/evidence_$P.bak evidence/$P.json 2>/dev/null
-git -C /repo status --short | head -3
+git -C "$VERIF_REPO" status --short | head -3
